@@ -9,6 +9,19 @@
 
 static bool never_ready(Thread *) { return false; }
 
+// true when no other thread has an unfinished op on the handle that thread `t` is about to destroy
+static bool join_ready(Thread *t) {
+  Runner *r = G;
+  size_t me = r->tpos[(size_t) t->tid];
+  int h = r->plan.ops[me].h;
+  for (size_t t2 = 0; t2 < r->tpos.size(); t2++) {
+    if ((int) t2 == t->tid) continue;
+    for (size_t i = r->tpos[t2]; i < r->plan.ops.size(); i++)
+      if (r->plan.ops[i].thread == (int) t2 && r->plan.ops[i].h == h) return false;
+  }
+  return true;
+}
+
 static const char *st_name(int st) {
   switch (st) {
     case LS_NONE: return "null";
@@ -122,7 +135,9 @@ void Runner::exec_op(Thread *t, int idx) {
       return;
     }
     case OP_WRITE: {
-      size_t n = (size_t) op.a;
+      int64_t n_override = -1;
+      auto once = [&]() {
+      size_t n = (size_t) (n_override >= 0 ? n_override : op.a);
       std::vector<uint8_t> buf(n ? n : 1);
       uint64_t base = h ? h->wr_off : 0;
       for (size_t i = 0; i < n; i++) buf[i] = K->byte_at(1000 + op.h, 0, base + i);
@@ -167,8 +182,26 @@ void Runner::exec_op(Thread *t, int idx) {
         c14("unexpected-error", fmt("write returned %s without any injected failure", errname(v).c_str()));
       }
       return;
+          };
+      // c: repeat until `a` bytes are accepted (chunks of d bytes, 0 = all); would-block -> sleep 1 ms and retry
+      if (!op.c) { once(); return; }
+      {
+        uint64_t total = (uint64_t) op.a, done = 0;
+        for (int iter = 0; iter < 20000 && done < total; iter++) {
+          uint64_t chunk = op.d > 0 && (uint64_t) op.d < total - done ? (uint64_t) op.d : total - done;
+          n_override = (int64_t) chunk;
+          once();
+          long long v = res.ret;
+          if (v > 0) { done += (uint64_t) v; continue; }
+          if (v == C.EWOULDBLOCK_ || v == -EINTR) { t->op = idx; K->park(t, never_ready, K->now_ns + 1000000, K_sleep); t->op = -1; continue; }
+          break;
+        }
+        res.bytes = done;
+      }
+      return;
     }
     case OP_READ: {
+      auto once = [&]() {
       int stream = (int) op.a;
       size_t n = (size_t) op.b;
       std::vector<uint8_t> buf(n ? n : 1);
@@ -220,6 +253,23 @@ void Runner::exec_op(Thread *t, int idx) {
         c14("unexpected-error", fmt("read returned %s without any injected failure", errname(v).c_str()));
       }
       return;
+          };
+      // c: repeat until the closed-stream error (or another error); would-block -> sleep 1 ms and retry
+      if (!op.c) { once(); return; }
+      {
+        uint64_t total = 0;
+        int maxit = op.d > 0 ? (int) op.d : 20000;
+        for (int iter = 0; iter < maxit; iter++) {
+          once();
+          long long v = res.ret;
+          if (v > 0) { total += (uint64_t) v; continue; }
+          if (v == 0 && op.b == 0) break;
+          if (v == C.EWOULDBLOCK_ || v == -EINTR) { t->op = idx; K->park(t, never_ready, K->now_ns + 1000000, K_sleep); t->op = -1; continue; }
+          break;
+        }
+        res.bytes = total;
+      }
+      return;
     }
     case OP_CLOSE: {
       int stream = (int) op.a;
@@ -266,6 +316,16 @@ void Runner::exec_op(Thread *t, int idx) {
       return;
     }
     case OP_DESTROY: {
+      // multi-thread plans: the README forbids destroying a handle other threads still use; join them first
+      if (tpos.size() > 1 && op.h >= 0 && !join_ready(t)) {
+        t->op = idx;
+        K->park(t, join_ready, -1, K_sleep);
+        t->op = -1;
+      }
+      res.t0_ns = K->now_ns;
+      st0 = h ? h->st : LS_NONE;
+      hp = h ? h->p : nullptr;
+      expect_uid = h && h->st == LS_RUNNING ? h->uid : -1;
       Proc *c = h ? proc_of(*h) : nullptr;
       switch (st0) {
         case LS_NONE: probe(P_destroy_null); break;
@@ -486,7 +546,7 @@ void Runner::check_stop_model(Thread *t, int idx, const int stop_in[6], OpRes &r
     if (X < 0 || X > bhi + tol) { lo = blo; hi = bhi; waits_expired++; continue; }
     // death within the tolerance window of the boundary: either outcome
     ambiguous_end = true;
-    if (ret_known ? v >= 0 : si >= sent.size()) { want_status = true; ended = true; break; }
+    if (si >= sent.size() && (!ret_known || v >= 0)) { want_status = true; ended = true; break; }
     lo = blo; hi = bhi; waits_expired++;
   }
   if (si < sent.size()) {
